@@ -104,7 +104,7 @@ class Prop:
     required_theorems = ['deferring_implies_pending', 'pending_refines_spec', 'family_released_exactly_once',
                          'release_only_when_unblocked_or_timer', 'non_gr_peer_never_blocks',
                          'held_prefixes_announced_once_partial', 'end_deferral_emits_held_once',
-                         'insert_while_deferring_is_held']
+                         'insert_while_deferring_is_held', 'mutators_quiet_while_deferring']
     correspondence_name = ('Model/Deferral.v rd_new/rd_step vs daemon/src/gr.rs RestartingDeferral::{new,process} '
                            '(harness/daemon/gr_hx.rs)')
     rule = ('cases = (configured GR families per peer, timer duration, input sequence); a case is non-trivial when the '
